@@ -41,7 +41,7 @@ func genC18(t *rapid.T) *c18Case {
 	}
 	c.Opts.TableSize = rapid.SampledFrom([]int{256, 512, 1024}).Draw(t, "tableSize")
 	n := rapid.IntRange(4, 30).Draw(t, "nops")
-	kinds := []string{"put", "put", "putmut", "read", "read", "read", "mutate", "mutate", "del", "churn", "churn", "compact", "destroy"}
+	kinds := []string{"put", "put", "putmut", "read", "read", "read", "mutate", "mutate", "del", "churn", "churn", "compact", "destroy", "pipemut"}
 	for i := 0; i < n; i++ {
 		op := c18Op{Op: rapid.SampledFrom(kinds).Draw(t, "op")}
 		if i == 0 {
@@ -185,6 +185,57 @@ func runC18(c *c18Case) (v *vcommon.Violation, nontrivial, inconclusive bool) {
 			}
 			copy(h.private, h.b) // the caller's own view of its buffer
 			h.mutated = true
+			nontrivial = true
+		case "pipemut":
+			// a queued pipeline Put / GetPut has returned: its buffer belongs to the caller again, also before Exec
+			var dm DMap
+			var err error
+			if op.Path == 3 {
+				cc, cerr := cl.clusterClient()
+				if cerr != nil {
+					return nil, nontrivial, true
+				}
+				dm, err = cc.NewDMap(name)
+			} else {
+				dm, err = cl.live()[i%len(cl.live())].emb.NewDMap(name)
+			}
+			if err != nil {
+				return nil, nontrivial, true
+			}
+			pipe, err := dm.Pipeline()
+			if err != nil {
+				return nil, nontrivial, true
+			}
+			val := mkval()
+			arg := append([]byte(nil), val...)
+			var res func() error
+			if op.How == "getput" {
+				f, err := pipe.GetPut(ctx, key, arg)
+				if err != nil {
+					pipe.Close()
+					return nil, nontrivial, true
+				}
+				res = func() error { _, err := f.Result(); return err }
+			} else {
+				f, err := pipe.Put(ctx, key, arg)
+				if err != nil {
+					pipe.Close()
+					return nil, nontrivial, true
+				}
+				res = f.Result
+			}
+			for j := range arg {
+				arg[j] = '!'
+			}
+			err = pipe.Exec(ctx)
+			if err == nil {
+				err = res()
+			}
+			pipe.Close()
+			if err != nil && errClass(err) != "notfound" {
+				return nil, nontrivial, true
+			}
+			model[key] = val
 			nontrivial = true
 		case "del":
 			if r := pc.del(ctx, key); r.Err != "" {
